@@ -175,7 +175,7 @@ Proof.
   - intros p Hp Ht Hs Ha. pose proof chk_threats_def_ok as H. unfold chk_threats_def in H. rewrite forallb_forall in H. specialize (H p Hp).
     apply orb_true_iff in H as [H|H]; [apply negb_true_iff in H; apply live_term1 in Ht; congruence|].
     destruct (solve p); [|now contradiction Hs]. apply orb_true_iff in H as [H|H]; [rewrite Ha in H; discriminate|].
-    apply existsb_exists in H as (q & Hq & Hqt). exists q. split; [assumption|]. destruct (terminal aw1 q) as [[|]|]; try discriminate. reflexivity.
+    apply existsb_exists in H as (q & Hq & Hqt). exists q. split; [assumption|]. destruct (terminal aw1 q) as [[|]|]; [discriminate Hqt|reflexivity|discriminate Hqt].
   - assert (Hin : existsb (pos_eqb root0) reach0 = true) by (vm_compute; reflexivity).
     apply existsb_exists in Hin as (r & Hr' & Hq). apply pos_eqb_eq in Hq. subst r. exact Hr'.
 Qed.
